@@ -24,6 +24,8 @@ import (
 //                      registered; handlers are invoked synchronously in arrival order
 //   R-unbounded-frames the per-call SSE reader has no practical line-length limit (a notification is one line)
 //   R-params-keys      NotificationParams' MarshalJSON and UnmarshalJSON single out the same member ("_meta")
+//   R-frame-verbatim   no Fprintf to a stream with a computed format string
+//   (R-client-drain also requires that the function returning the answer reads the stream itself)
 func init() { Registry["C10"] = checkC10 }
 
 const sseutilPkg = ir.RootPath + "/internal/sseutil"
